@@ -50,7 +50,7 @@ func (f *Formatter) Format(content string) (string, error) {
 
 	// Check if this looks like a full document (starts with <!DOCTYPE or <html)
 	trimmedBody := strings.TrimSpace(body)
-	isFullDocument := hasPrefixFold(trimmedBody, "<!DOCTYPE") || hasPrefixFold(trimmedBody, "<html")
+	isFullDocument := hasPrefixFold(trimmedBody, "<!DOCTYPE") || hasTagPrefixFold(trimmedBody, "<html")
 
 	if isFullDocument {
 		return f.formatFullDocument(frontmatter, body)
@@ -113,6 +113,22 @@ func (f *Formatter) formatFullDocument(frontmatter, body string) (string, error)
 // the doctype keyword are case-insensitive in HTML.
 func hasPrefixFold(s, prefix string) bool {
 	return len(s) >= len(prefix) && strings.EqualFold(s[:len(prefix)], prefix)
+}
+
+// hasTagPrefixFold reports whether s begins with the start of the given tag (`<html`) and
+// the tag name ends there: <html-viewer> is another element.
+func hasTagPrefixFold(s, tag string) bool {
+	if !hasPrefixFold(s, tag) {
+		return false
+	}
+	if len(s) == len(tag) {
+		return true
+	}
+	switch s[len(tag)] {
+	case ' ', '\t', '\n', '\r', '\f', '>', '/':
+		return true
+	}
+	return false
 }
 
 // fragmentContext returns an appropriate context node for html.ParseFragment
